@@ -34,6 +34,7 @@ def SYS(num):
 
 PLAN = {
     "C01": dict(
+        tlaps=dict(quick=["TransformLaws"]),
         gen=dict(quick=[("Gen_C01", "Gen_C01.cfg"), SYS(25)], thorough=[("Gen_C01", "Gen_C01_T.cfg"), SYS(400)]),
         traces=[("sweep_c01", (1, 2)), ("long_c01", (1, 2)), ("c01", (1, 6)), ("c01x", (None, 1))],
         seeds=dict(quick=1, thorough=6), seeded={"c01x": False},
@@ -43,6 +44,7 @@ PLAN = {
              "non-trivial = some sequence involved is non-empty",
     ),
     "C02": dict(
+        tlaps=dict(thorough=["ColexNumeric"]),
         gen=dict(quick=[SYS(25)], thorough=[SYS(400)]),
         traces=[("sweep_c02", (1, 2)), ("long_c02", (1, 2)), ("c02", (1, None)), ("c02all", (None, 4)), ("giant_c02", (None, 1)), ("c02alt", (1, 1))],
         codecs={"c02alt": ["mdna", "amino", "x3"], "giant_c02": ["iupac", "miupac"]},
@@ -63,6 +65,7 @@ PLAN = {
              "word-boundary lengths incl. steps just past the end; TLC-enumerated expressions replayed",
     ),
     "C04": dict(
+        tlaps=dict(thorough=["ColexNumeric"]),
         gen=dict(quick=[SYS(25)], thorough=[SYS(400)]),
         traces=[("sweep_c04", (1, 2)), ("long_c04", (1, 2)), ("c04", (2, None)), ("c04all", (None, 4)), ("giant_c04", (None, 1))],
         codecs={"giant_c04": ["iupac", "miupac"]},
@@ -197,6 +200,7 @@ PLAN = {
         assumptions=["rustc's accept/reject verdict on a generated program is taken as observed (TLC never sees inside the compiler)"],
     ),
     "C18": dict(
+        tlaps=dict(quick=["TransformLaws"]),
         gen=dict(quick=[SYS(25)], thorough=[SYS(400)]),
         traces=[("sweep_c18", (1, 2)), ("long_c18", (1, 2)), ("c18", (6, None)), ("c18all", (None, 12))],
         seeds=dict(quick=1, thorough=6),
